@@ -929,3 +929,30 @@ func slotOf(slots []Slot, typeSuffix string, k int) *X {
 	}
 	return m[k]
 }
+
+// outermost climbs from fn to the function it is a step of: as long as fn is
+// unexported and all its static call sites lie in one other unexported
+// function, that function takes its place (a routine split into phases or
+// step helpers is analysed as the routine).
+func (c *Ctx) outermost(fn *ssa.Function) *ssa.Function {
+	for d := 0; d < 3 && fn != nil; d++ {
+		sites, known := c.staticCallSites(fn)
+		if !known || len(sites) == 0 {
+			break
+		}
+		var caller *ssa.Function
+		one := true
+		for _, s := range sites {
+			g := topFunc(s.Parent())
+			if caller != nil && g != caller {
+				one = false
+			}
+			caller = g
+		}
+		if !one || caller == nil || caller == fn || (caller.Object() != nil && caller.Object().Exported()) {
+			break
+		}
+		fn = caller
+	}
+	return fn
+}
